@@ -443,6 +443,15 @@ def check(ctx):
                 bn = fr.choice(bodynames)
                 tasks.append(('pos:%s:%d:%s' % (lang, k, cn), ('host', lang), lang, k, fr.choice(lang_styles(lang)), bn,
                               fr.choice([n for n in bodynames if n != bn]), cur[cn], True))
+    # regions at the very start of the file (before line 0 of every host), every body
+    for lang in sorted(HOSTS):
+        for bn in bodynames:
+            fr = fixed_rng(PROP, 'start:%s:%s' % (lang, bn))
+            if quick and fr.random() > 0.3:
+                continue
+            cn = fr.choice(sorted(cur))
+            tasks.append(('start:%s:%s:%s' % (lang, bn, cn), ('host', lang), lang, 0, fr.choice(lang_styles(lang)), bn,
+                          fr.choice([n for n in bodynames if n != bn]), cur[cn], True))
     # corpus hosts: fixed universe of (file, position, style, body, config draw); the seed selects members
     U = 60000
     ctx.extra['corpus_universe'] = U
